@@ -382,3 +382,78 @@ def failed_head_lookup_skips_precommit(trace, viol):
     f = trace.get("fault") or (viol.get("detail") or {}).get("fault") or {}
     return f.get("family") == "git" and "rev-parse" in (f.get("argv") or []) and \
         (viol.get("class") or "").startswith("attribution_invented_after_fault")
+
+
+@predicate("merge_switch_conflict")
+def merge_switch_conflict(trace, viol):
+    """checkout/switch --merge (-m) with pending AI work that stops on a conflict: the carried
+    attribution is stored by line number against the text WITH conflict markers; resolving the
+    conflict shifts the lines (checkpoints skip conflicted files), so other lines are credited"""
+    if viol.get("class") not in LEDGER_CLASSES:
+        return False
+    sw = _index_of(trace, lambda o: o.get("op") == "git" and (o.get("argv") or [])[:1] in (["checkout"], ["switch"])
+                   and any(x in ("--merge", "-m") for x in o["argv"]))
+    if sw is None:
+        return False
+    res = _index_of(trace, lambda o: o.get("op") == "resolve", sw)
+    st = viol.get("step")
+    return res is not None and isinstance(st, int) and st > res
+
+
+@predicate("pull_rebase_conflict")
+def pull_rebase_conflict(trace, viol):
+    """git pull --rebase that stops on a conflict and is finished with rebase --continue: no rebase
+    start was recorded for the pull, so the continue is taken for a new rebase and the rewritten
+    commits (and autostashed pending work) lose their attribution"""
+    if viol.get("class") != "ai_line_reported_human":
+        return False
+    pl = _index_of(trace, lambda o: _is_git(o, "pull", "--rebase"))
+    if pl is None:
+        return False
+    cont = _index_of(trace, lambda o: _is_git(o, "rebase", "--continue"), pl)
+    st = viol.get("step")
+    return cont is not None and isinstance(st, int) and st >= cont
+
+
+@predicate("pick_conflict_multi_commit_notes")
+def pick_conflict_multi_commit_notes(trace, viol):
+    """cherry-pick of a range that stops on a conflict and is continued: wrapper mode writes the notes
+    of all picked commits from the state at the end of the range, hooks mode commit by commit"""
+    if viol.get("monitor") != "pair.notes":
+        return False
+    cp = _index_of(trace, lambda o: _is_git(o, "cherry-pick") and any(".." in x for x in o["argv"]))
+    if cp is None:
+        return False
+    res = _index_of(trace, lambda o: o.get("op") == "resolve", cp)
+    cont = _index_of(trace, lambda o: _is_git(o, "cherry-pick", "--continue"), cp)
+    st = viol.get("step")
+    return res is not None and cont is not None and isinstance(st, int) and st >= cont
+
+
+@predicate("hooks_pathspec_reset")
+def hooks_pathspec_reset(trace, viol):
+    """git reset <commit> -- <path> moves no ref and runs no hook: invisible to the managed hooks"""
+    if viol.get("monitor") not in ("pair.notes", "pair.blame"):
+        return False
+    if (trace.get("variant") or {}).get("world", {}).get("mode") != "hooks":
+        return False
+    rs = _index_of(trace, lambda o: o.get("op") == "git" and (o.get("argv") or [])[:1] == ["reset"] and "--" in o["argv"]
+                   and any(x.startswith("HEAD~") for x in o["argv"]))
+    st = viol.get("step")
+    return rs is not None and isinstance(st, int) and st > rs
+
+
+@predicate("hooks_pull_autostash_abort")
+def hooks_pull_autostash_abort(trace, viol):
+    """pull --rebase --autostash that stops on a conflict and is aborted: git re-applies the autostash,
+    wrapper mode keeps the pending attribution, the managed hooks lose it"""
+    if viol.get("monitor") not in ("pair.notes", "pair.blame"):
+        return False
+    if (trace.get("variant") or {}).get("world", {}).get("mode") != "hooks":
+        return False
+    pl = _index_of(trace, lambda o: _is_git(o, "pull", "--rebase", "--autostash"))
+    if pl is None:
+        return False
+    ab = _index_of(trace, lambda o: _is_git(o, "rebase", "--abort"), pl)
+    st = viol.get("step")
+    return ab is not None and isinstance(st, int) and st > ab
